@@ -56,7 +56,9 @@ def _exec(self, x, get_child, get_param, get_var):
     op = st[0]
     if op == 'param':
       p = get_param(i, st, x)
-      if st[2] != 'k':   # kind 'k': the parameter *is* the key data its initialiser received
+      if st[2] == 'm':   # kind 'm': square matrix, x = x @ p
+        x = x @ p
+      elif st[2] != 'k':   # kind 'k': the parameter *is* the key data its initialiser received
         x = x * p
     elif op == 'var':
       _, col, n, kind = st
@@ -183,7 +185,7 @@ def _compact_call(self, x):
   def get_param(i, st, x):
     if st[2] == 'k':
       return self.param(st[1], lambda key: jax.random.key_data(key))
-    shape = () if st[2] == 's' else (x.shape[-1],)
+    shape = {'s': (), 'v': (x.shape[-1],), 'm': (x.shape[-1], x.shape[-1])}[st[2]]
     return self.param(st[1], pinit(self.ki), shape)
 
   def get_var(i, st):
@@ -429,7 +431,7 @@ def ref_run(cls, d, store, mutable, x, keys=None, initializing=False, trace=None
       if op == 'param':
         _, n, kind = st
         reserve(n, 'params')
-        shape = () if kind == 's' else (x.shape[-1],)
+        shape = {'s': (), 'v': (x.shape[-1],), 'm': (x.shape[-1], x.shape[-1])}[kind]
         cur = _get(store, 'params', path + (n,))
         if cur is None:
           if not mutable('params'):
@@ -439,7 +441,7 @@ def ref_run(cls, d, store, mutable, x, keys=None, initializing=False, trace=None
           _put(store, 'params', path + (n,), cur)
         elif np.shape(cur) != shape:
           raise RefError('shape', f'param {n} at {path}')
-        x = x * cur
+        x = (x @ cur) if kind == 'm' else (x * cur)
       elif op == 'var':
         _, col, n, kind = st
         reserve(n, col)
